@@ -44,8 +44,13 @@ func newLits() *mstore.Literals {
 	for k := 0; k < nunhashable; k++ {
 		l.AddUnhashable(k)
 	}
+	// literals nclasses*nvariants+nunhashable ..: one multipart message and variants that differ in exactly one hashed
+	// item (own class each) or only in Date / Message-Id / X- header (class of the base message)
+	family, _ = l.AddHashFamily(20)
 	return l
 }
+
+var family []int
 
 func isRecov(n string) bool { return strings.EqualFold(n, mstore.RecoveryName) }
 
@@ -237,6 +242,9 @@ func genOp(rng *common.Rng, d mstore.Dump, nlits int) mstore.Op {
 		if rng.Chance(0.18) {
 			l = nclasses*nvariants + rng.Pick(nunhashable) // un-hashable
 		}
+		if rng.Chance(0.12) {
+			l = family[rng.Pick(len(family))] // differs from its siblings in exactly one item
+		}
 		return l
 	}
 	allUIDs := func(m *mstore.MboxDump) []int {
@@ -376,7 +384,13 @@ func runC20(ctx *common.Ctx) error {
 	res := ctx.Res
 	rng := ctx.Rng
 	res.Rule = "wire histories of APPEND (remote accepting / rejecting / rejecting for size) with repeated and near-duplicate literals (same Subject/From/To/body, other Date/Message-Id/X-header), COPY/MOVE out of the recovery mailbox and between mailboxes with CreateMessage/AddMessagesToMailbox/MoveMessages failing on a schedule, expunge in the recovery mailbox, restart, and client commands aimed at the recovery mailbox; after every operation the bytes in all mailboxes are compared with the clauses of C20; non-trivial = distinct histories with at least one remote rejection"
-	nlits := nclasses*nvariants + nunhashable
+	nlits := len(newLits().Bytes)
+	// the literal table against the real rfc822.GetMessageHash: error <=> class raw, equal hash <=> same class. A mismatch
+	// is not a violation by itself; the histories below then show which rejected message is lost or kept twice.
+	tableErr := newLits().Validate()
+	if tableErr != nil {
+		res.Notes = append(res.Notes, "literal table vs rfc822.GetMessageHash: "+tableErr.Error())
+	}
 	var lines []string
 	id := 0
 	ncases := ctx.Budget(40, 500)
@@ -491,6 +505,16 @@ func runC20(ctx *common.Ctx) error {
 		{Kind: "append", Name: "INBOX", Lit: 2, Remote: "fail"}, {Kind: "append", Name: "INBOX", Lit: 1, Remote: "fail"}}); err != nil {
 		return err
 	}
+	// every literal of the family rejected once: the ones that differ in a hashed item must all be kept
+	{
+		var ops []mstore.Op
+		for _, l := range family {
+			ops = append(ops, mstore.Op{Kind: "append", Name: "INBOX", Lit: l, Remote: "fail"})
+		}
+		if err := fixed(ops); err != nil {
+			return err
+		}
+	}
 	// ---- random histories ----
 	for ci := 0; ci < ncases; ci++ {
 		id++
@@ -519,5 +543,8 @@ func runC20(ctx *common.Ctx) error {
 		}
 	}
 	res.ModelCases = len(lines)
+	if tableErr != nil && len(res.Failures) == 0 {
+		return fmt.Errorf("the literal table disagrees with rfc822.GetMessageHash (%v) but no history showed a violation", tableErr)
+	}
 	return mstore.WriteCases(ctx.Out, "Run.RunC20", lines, nil)
 }
